@@ -934,7 +934,14 @@ def gen_query(g, profile='query'):
                   r.choice(si.units_of('Time'))]
         op = {'op': 'snapshot', 'at': at, 'units': out_units(g)}
         c = r.random()
-        if c < 0.25:
+        if g.cfg.get('exhaustive_subsets') and g.chance(0.6):
+            # sizes 1 and 2 enumerated across the campaign: the seed picks
+            # the index into the list of all such subsets
+            import itertools
+            subs = [[x] for x in valid] + \
+                [list(x) for x in itertools.combinations(valid, 2)]
+            op['vars'] = subs[(g.seed + len(sched)) % len(subs)]
+        elif c < 0.25:
             op['vars'] = None
         elif c < 0.6:
             op['vars'] = [r.choice(valid)]
